@@ -12,7 +12,8 @@ META = {
                    "config.krylov_tolerance and the Lindblad list, positionally in the order both stepper "
                    "classes declare; the state is stored from the stepper's first result before observables "
                    "are applied with index k+1; the loop runs range(nsteps); the generator is −i·dt·H with "
-                   "is_hermitian=True.",
+                   "is_hermitian=True. "
+                   "Every path of EvolveStateVector.evolve exponentiates (no early return skips the Krylov step); HAM-form: the drive term is applied for every qubit and the diagonal is −ΣΔ_i n_i + Σ_{i<j} U_ij n_i n_j over all pairs.",
     "not_decided": "that the propagator's numbers equal exact evolution or Pulser's (Krylov and discretisation "
                    "errors are runtime quantities)",
     "trusted_base": ["CPython ast", "sa.interp", "sa.algebra polynomial normal form"],
